@@ -361,18 +361,430 @@ def rule_equations(ctx):
     ctx.ob('C19-R6', mc, 'non-ISA correction: ISA thrust × (1 − clip(ΔT_eff·max(0, Ctc5), 0, 0.4)), ΔT_eff = ΔT − Ctc4', bool(ok),
            'matches (3.7-4..7)' if ok else 'temperature correction of the maximum climb thrust changed',
            line=(r.lineno if r is not None else mc.node.lineno))
-    # engine selection
+    rule_engine_dispatch(ctx)
+
+
+# --- engine selection: the dispatch decided by specialising the function on each engine type ---------------
+
+ENGINE_TYPE = f'{OBJ}.engine_type'
+ENGINE_SLOT = 'self.engine_model'
+ENGINE_MODELS = {'Jet': 'Bada3JetEngineModel', 'Turboprop': 'Bada3TurbopropEngineModel',
+                 'Piston': 'Bada3PistonEngineModel'}
+
+
+class _Undecided(Exception):
+    pass
+
+
+class _Raised(Exception):
+    def __init__(self, name):
+        super().__init__(name)
+        self.name = name
+
+
+class _Ref:
+    """a value known only by name (class, function, object path)"""
+
+    def __init__(self, name):
+        self.name = name
+
+    def __eq__(self, o):
+        return isinstance(o, _Ref) and o.name == self.name
+
+    def __hash__(self):
+        return hash(('ref', self.name))
+
+    def __repr__(self):
+        return self.name
+
+
+class _Inst:
+    """result of calling a named callable"""
+
+    def __init__(self, callee, args, kwargs):
+        self.callee, self.args, self.kwargs = callee, args, kwargs
+
+    def __repr__(self):
+        a = [repr(x) for x in self.args] + [f'{k}={v!r}' for k, v in self.kwargs.items()]
+        return f'{self.callee}({", ".join(a)})'
+
+
+_UNKNOWN = object()
+_STR_METHODS = ('lower', 'upper', 'strip', 'casefold', 'title', 'capitalize')
+
+# exception classes a failed table lookup raises, with the handler names that catch them
+_CATCHES = {'KeyError': {'KeyError', 'LookupError', 'Exception', 'BaseException'},
+            'AttributeError': {'AttributeError', 'Exception', 'BaseException'}}
+
+
+class _Specialiser:
+    """Follow one function along the single path it takes when some access paths have known constant values
+    (here: the engine type).  Tests, `match` cases, conditional expressions and table look-ups that depend only on
+    known values are decided; everything else is carried as an opaque value and only matters if a decision or
+    the requested result depends on it (then: undecided).  Nothing is executed: this is evaluation of the
+    extracted syntax over an explicit environment."""
+
+    def __init__(self, prog, fi, env):
+        self.prog, self.fi = prog, fi
+        self.env = dict(env)
+        self.g = _cfg(fi.node)
+        self.subjects = {}
+
+    # -- values
+    def _global(self, name):
+        m = self.fi.module
+        r = self.prog.resolve_name(m, name)
+        if isinstance(r, tuple) and r[0] == 'const':
+            saved, self.env = self.env, {}
+            try:
+                return self.val(r[1].constants[r[2]])
+            except _Undecided:
+                return _UNKNOWN
+            finally:
+                self.env = saved
+        if r is not None and hasattr(r, 'name'):
+            return _Ref(r.name)
+        return _Ref(name)
+
+    def _class_const(self, attr):
+        c = self.fi.cls
+        for k in (c.mro() if c is not None else []):
+            v = k.class_assignments().get(attr)
+            if v is not None:
+                saved, self.env = self.env, {}
+                try:
+                    return self.val(v)
+                except _Undecided:
+                    return _UNKNOWN
+                finally:
+                    self.env = saved
+        return None
+
+    def val(self, e):
+        if isinstance(e, ast.Constant):
+            return e.value
+        if isinstance(e, ast.Name):
+            return self.env[e.id] if e.id in self.env else self._global(e.id)
+        if isinstance(e, ast.Attribute):
+            t = norm(e)
+            if t in self.env:
+                return self.env[t]
+            if isinstance(e.value, ast.Name) and e.value.id in ('self', 'cls') \
+                    or norm(e.value) in ('type(self)', 'self.__class__'):
+                v = self._class_const(e.attr)
+                if v is not None:
+                    return v
+            d = _dotted(e)
+            if d is not None:
+                head, _, rest = d.partition('.')
+                if head not in self.env and head in self.fi.module.imports:
+                    r = self.prog.resolve_dotted(self.fi.module.imports[head] + '.' + rest)
+                    if r is not None and hasattr(r, 'name'):
+                        return _Ref(r.name)
+            bv = self.val(e.value)
+            if isinstance(bv, _Ref):
+                full = f'{bv.name}.{e.attr}'
+                return self.env[full] if full in self.env else _Ref(full)
+            return _UNKNOWN
+        if isinstance(e, ast.Dict):
+            out = {}
+            for k, v in zip(e.keys, e.values):
+                if k is None:
+                    return _UNKNOWN
+                kv = self.val(k)
+                if kv is _UNKNOWN or isinstance(kv, (_Ref, _Inst, dict, list)):
+                    return _UNKNOWN
+                out[kv] = self.val(v)
+            return out
+        if isinstance(e, (ast.Tuple, ast.List, ast.Set)):
+            vs = [self.val(x) for x in e.elts]
+            return _UNKNOWN if any(v is _UNKNOWN for v in vs) else tuple(vs)
+        if isinstance(e, ast.Subscript):
+            d, k = self.val(e.value), self.val(e.slice)
+            if isinstance(d, _Ref) and isinstance(k, str):
+                # item access on an object that forwards items to attributes (the parameter object does)
+                full = f'{d.name}.{k}'
+                return self.env[full] if full in self.env else _UNKNOWN
+            if isinstance(d, dict) and k is not _UNKNOWN and not isinstance(k, (_Inst, dict)):
+                if k in d:
+                    return d[k]
+                raise _Raised('KeyError')
+            return _UNKNOWN
+        if isinstance(e, ast.IfExp):
+            return self.val(e.body if self.truth(e.test) else e.orelse)
+        if isinstance(e, ast.NamedExpr):
+            v = self.val(e.value)
+            self.env[e.target.id] = v
+            return v
+        if isinstance(e, (ast.Compare, ast.BoolOp)) or isinstance(e, ast.UnaryOp) and isinstance(e.op, ast.Not):
+            try:
+                return self.truth(e)
+            except _Undecided:
+                return _UNKNOWN
+        if isinstance(e, ast.Call):
+            f = e.func
+            if isinstance(f, ast.Attribute) and f.attr == 'get' and 1 <= len(e.args) <= 2 and not e.keywords:
+                d = self.val(f.value)
+                if isinstance(d, dict):
+                    k = self.val(e.args[0])
+                    if k is _UNKNOWN or isinstance(k, (_Inst, dict)):
+                        return _UNKNOWN
+                    return d[k] if k in d else (self.val(e.args[1]) if len(e.args) == 2 else None)
+            if isinstance(f, ast.Name) and f.id == 'getattr' and 2 <= len(e.args) <= 3 and f.id not in self.env:
+                o, a = self.val(e.args[0]), self.val(e.args[1])
+                if isinstance(o, _Ref) and isinstance(a, str):
+                    full = f'{o.name}.{a}'
+                    return self.env[full] if full in self.env else _Ref(full)
+                return _UNKNOWN
+            if isinstance(f, ast.Attribute) and f.attr in _STR_METHODS and not e.args and not e.keywords:
+                b = self.val(f.value)
+                if isinstance(b, str):
+                    return getattr(b, f.attr)()
+                if not isinstance(b, _Ref):
+                    return _UNKNOWN
+            fv = self.val(f)
+            if isinstance(fv, _Ref):
+                if any(isinstance(a, ast.Starred) for a in e.args) or any(k.arg is None for k in e.keywords):
+                    return _Inst(fv.name, [_UNKNOWN], {})
+                return _Inst(fv.name, [self.val(a) for a in e.args], {k.arg: self.val(k.value) for k in e.keywords})
+            if fv is None:
+                raise _Raised('TypeError')
+            return _UNKNOWN
+        return _UNKNOWN
+
+    def truth(self, e):
+        if isinstance(e, ast.UnaryOp) and isinstance(e.op, ast.Not):
+            return not self.truth(e.operand)
+        if isinstance(e, ast.BoolOp):
+            for v in e.values:
+                t = self.truth(v)
+                if isinstance(e.op, ast.And) and not t:
+                    return False
+                if isinstance(e.op, ast.Or) and t:
+                    return True
+            return isinstance(e.op, ast.And)
+        if isinstance(e, ast.Compare):
+            left = self.val(e.left)
+            for op, c in zip(e.ops, e.comparators):
+                right = self.val(c)
+                if left is _UNKNOWN or right is _UNKNOWN:
+                    raise _Undecided(f'`{norm(e)}` depends on a value that is not known')
+                if isinstance(op, (ast.Eq, ast.NotEq)):
+                    if isinstance(left, _Inst) or isinstance(right, _Inst):
+                        raise _Undecided(f'`{norm(e)}`: equality of a created object')
+                    r = (left == right) == isinstance(op, ast.Eq)
+                elif isinstance(op, (ast.Is, ast.IsNot)):
+                    if isinstance(left, _Inst) or isinstance(right, _Inst):
+                        raise _Undecided(f'`{norm(e)}`: identity of a created object')
+                    same = (left is right) if (left is None or right is None or isinstance(left, bool)
+                                               or isinstance(right, bool)) else (left == right)
+                    r = same == isinstance(op, ast.Is)
+                elif isinstance(op, (ast.In, ast.NotIn)):
+                    if not isinstance(right, (dict, tuple, str)):
+                        raise _Undecided(f'`{norm(e)}`: membership in an unknown container')
+                    try:
+                        r = (left in right) == isinstance(op, ast.In)
+                    except TypeError:
+                        raise _Undecided(f'`{norm(e)}`') from None
+                else:
+                    raise _Undecided(f'`{norm(e)}`: ordering comparison')
+                if not r:
+                    return False
+                left = right
+            return True
+        v = self.val(e)
+        if v is _UNKNOWN:
+            raise _Undecided(f'`{norm(e)}` is not known')
+        if isinstance(v, (_Ref, _Inst)):
+            return True
+        return bool(v)
+
+    def _matches(self, pat, subj):
+        if isinstance(pat, ast.MatchValue):
+            v = self.val(pat.value)
+            if v is _UNKNOWN or subj is _UNKNOWN:
+                raise _Undecided(f'case {norm(pat)}')
+            return v == subj
+        if isinstance(pat, ast.MatchSingleton):
+            return subj is pat.value
+        if isinstance(pat, ast.MatchOr):
+            return any(self._matches(p, subj) for p in pat.patterns)
+        if isinstance(pat, ast.MatchAs):
+            ok = True if pat.pattern is None else self._matches(pat.pattern, subj)
+            if ok and pat.name is not None:
+                self.env[pat.name] = subj
+            return ok
+        raise _Undecided(f'case pattern `{norm(pat)}`')
+
+    # -- control
+    def _succ(self, n, lab):
+        s = [b for b, l in self.g.succ[n] if l == lab]
+        if len(s) != 1:
+            raise _Undecided(f'no unique `{lab}` successor at `{self.g.nodes[n].text()[:50]}`')
+        return s[0]
+
+    def _store(self, t, v):
+        if isinstance(t, ast.Name):
+            self.env[t.id] = v
+        elif isinstance(t, ast.Attribute):
+            self.env[norm(t)] = v
+        elif isinstance(t, (ast.Tuple, ast.List)):
+            for i, x in enumerate(t.elts):
+                self._store(x, v[i] if isinstance(v, tuple) and len(v) == len(t.elts) else _UNKNOWN)
+        elif isinstance(t, ast.Subscript):
+            base = t.value
+            key = norm(base) if isinstance(base, ast.Attribute) else base.id if isinstance(base, ast.Name) else None
+            if key is not None:
+                self.env[key] = _UNKNOWN
+
+    def _raise_at(self, n, name):
+        """continue in the handler that catches `name`, or leave the function"""
+        tgt = [b for b, l in self.g.succ[n] if l == 'e']
+        while tgt:
+            d = self.g.nodes[tgt[0]]
+            if d.kind != 'dispatch':
+                break
+            outer = None
+            for b, l in self.g.succ[d.id]:
+                h = self.g.nodes[b]
+                if h.kind == 'except':
+                    ty = h.stmt.type
+                    names = {'BaseException'} if ty is None else {
+                        norm(x).split('.')[-1] for x in (ty.elts if isinstance(ty, ast.Tuple) else [ty])}
+                    if names & _CATCHES.get(name, {name, 'Exception', 'BaseException'}):
+                        if h.stmt.name:
+                            self.env[h.stmt.name] = _UNKNOWN
+                        return self._succ(h.id, 'n')
+                else:
+                    outer = b
+            tgt = [outer] if outer is not None else []
+        raise _Raised(name)
+
+    def run(self, limit=400):
+        """-> ('return', env) | ('raise', exception name)"""
+        g = self.g
+        n = g.entry
+        for _ in range(limit):
+            node = g.nodes[n]
+            if n == g.exit:
+                return 'return', self.env
+            if n == g.raise_exit:
+                return 'raise', '?'
+            try:
+                if node.kind in ('entry', 'join', 'finally', 'with'):
+                    n = self._succ(n, 'n')
+                elif node.kind == 'test':
+                    n = self._succ(n, 't' if self.truth(node.stmt.test) else 'f')
+                elif node.kind == 'match':
+                    sv = self.val(node.stmt.subject)
+                    for c in node.stmt.cases:
+                        self.subjects[id(c)] = sv
+                    n = self._succ(n, 'n')
+                elif node.kind == 'case':
+                    c = node.stmt
+                    ok = self._matches(c.pattern, self.subjects[id(c)]) and (c.guard is None or self.truth(c.guard))
+                    n = self._succ(n, 't' if ok else 'f')
+                elif node.kind == 'stmt':
+                    s = node.stmt
+                    if isinstance(s, ast.Return):
+                        if s.value is not None:
+                            self.env['<return>'] = self.val(s.value)
+                        return 'return', self.env
+                    if isinstance(s, ast.Raise):
+                        nm = '?'
+                        if s.exc is not None:
+                            x = s.exc.func if isinstance(s.exc, ast.Call) else s.exc
+                            nm = (_dotted(x) or '?').split('.')[-1]
+                        n = self._raise_at(n, nm)
+                        continue
+                    if isinstance(s, ast.Assert):
+                        try:
+                            if not self.truth(s.test):
+                                n = self._raise_at(n, 'AssertionError')
+                                continue
+                        except _Undecided:
+                            pass
+                    elif isinstance(s, ast.Assign):
+                        v = self.val(s.value)
+                        for t in s.targets:
+                            self._store(t, v)
+                    elif isinstance(s, ast.AnnAssign):
+                        if s.value is not None:
+                            self._store(s.target, self.val(s.value))
+                    elif isinstance(s, ast.AugAssign):
+                        self._store(s.target, _UNKNOWN)
+                    elif isinstance(s, ast.Expr):
+                        v = self.val(s.value)
+                        # setattr(self, 'name', value) is a store
+                        if isinstance(s.value, ast.Call) and isinstance(s.value.func, ast.Name) \
+                                and s.value.func.id == 'setattr' and len(s.value.args) == 3:
+                            o, a, x = s.value.args
+                            av = self.val(a)
+                            if isinstance(av, str):
+                                self.env[f'{norm(o)}.{av}'] = self.val(x)
+                            else:
+                                raise _Undecided(f'`{norm(s)}` stores to an attribute that is not known')
+                    elif isinstance(s, ast.Delete):
+                        for t in s.targets:
+                            self._store(t, _UNKNOWN)
+                    n = self._succ(n, 'n')
+                else:
+                    raise _Undecided(f'`{node.text()[:60]}`: loops and handlers are not followed')
+            except _Raised as r:
+                try:
+                    n = self._raise_at(n, r.name)
+                except _Raised as r2:
+                    return 'raise', r2.name
+        raise _Undecided('path does not end')
+
+
+def _cfg(fn):
+    from ..cfg import CFG
+    return CFG(fn)
+
+
+def _dotted(e):
+    from ..loader import dotted_name
+    return dotted_name(e)
+
+
+def rule_engine_dispatch(ctx):
+    """Each engine type receives its own engine model.  Decided by following `create_engine_model` once per engine
+    type with `aircraft_parameters.engine_type` bound to that string: whatever the dispatch is written as (if/elif,
+    guard clauses, `match`, a dict of classes, a conditional expression), the value left in `self.engine_model` must be
+    an instance of that type's model class built from `self.aircraft_parameters`."""
+    prog = ctx.prog
+    m = prog.module(MODEL)
     ce = m.func('Bada3FuelBurnModel.create_engine_model')
-    pairs = {}
-    for x in walk_no_nested(ce.node):
-        if isinstance(x, ast.If) and isinstance(x.test, ast.Compare) and norm(x.test.left) == 'engine_type':
-            k = x.test.comparators[0].value if isinstance(x.test.comparators[0], ast.Constant) else None
-            for s in x.body:
-                if isinstance(s, ast.Assign) and norm(s.targets[0]) == 'self.engine_model':
-                    pairs[k] = call_name(s.value)
-    ok = pairs == {'Jet': 'Bada3JetEngineModel', 'Turboprop': 'Bada3TurbopropEngineModel', 'Piston': 'Bada3PistonEngineModel'}
-    ctx.ob('C19-R6', ce, f'engine type dispatch {pairs}', ok, 'each engine type gets its own model' if ok else
-           'an engine type is mapped to the wrong fuel-flow/thrust model')
+    n = 0
+    for et, want in ENGINE_MODELS.items():
+        sp = _Specialiser(prog, ce, {ENGINE_TYPE: et, OBJ: _Ref(OBJ)})
+        try:
+            how, res = sp.run()
+        except _Undecided as u:
+            ctx.undecided('C19-R6', ce, f'engine type {et!r}', f'dispatch cannot be followed: {u}')
+        n += 1
+        if how == 'raise':
+            ctx.ob('C19-R6', ce, f'engine type {et!r} -> {want}', False,
+                   f'create_engine_model raises {res} for engine type {et!r}: the {et.lower()} fuel-flow/thrust model '
+                   'is never created', line=ce.node.lineno)
+            continue
+        got = res.get(ENGINE_SLOT, res.get('<return>'))
+        if got is None or got is _UNKNOWN or not isinstance(got, _Inst):
+            ctx.undecided('C19-R6', ce, f'engine type {et!r}',
+                          f'the value left in {ENGINE_SLOT} is not a recognisable constructor call ({got!r})')
+        ok = got.callee == want
+        args = list(got.args) + list(got.kwargs.values())
+        okp = len(args) == 1 and args[0] == _Ref(OBJ)
+        ctx.ob('C19-R6', ce, f'engine type {et!r} -> {want}', ok,
+               f'{got!r}' if ok else
+               f'engine type {et!r} is given {got.callee}: an engine type is mapped to the wrong fuel-flow/thrust model',
+               line=ce.node.lineno)
+        if ok:
+            ctx.ob('C19-R6', ce, f'{want} built from the model\'s own parameter object', okp,
+                   OBJ if okp else f'{got!r}: the engine model does not read the parameters of this aircraft',
+                   line=ce.node.lineno, nontrivial=False)
+    ctx.floor('C19-R6/dispatch', n, len(ENGINE_MODELS), 'engine types followed through create_engine_model')
 
 
 def rule_assign_all(ctx):
